@@ -6,6 +6,8 @@ mod c03;
 mod c04;
 mod c05;
 mod c06;
+mod c07;
+mod c08;
 mod c09;
 mod c14;
 mod classify;
@@ -58,6 +60,8 @@ fn main() {
         "C04" => dispatch(&c04::C04, mode, &rest),
         "C05" => dispatch(&c05::C05, mode, &rest),
         "C06" => dispatch(&c06::C06, mode, &rest),
+        "C07" => dispatch(&c07::C07, mode, &rest),
+        "C08" => dispatch(&c08::C08, mode, &rest),
         "C09" => dispatch(&c09::C09, mode, &rest),
         "C14" => dispatch(&c14::C14, mode, &rest),
         _ => {
